@@ -295,6 +295,27 @@ def dst_modules(c, named, alias):
     return [(k, mod, exp)]
 
 
+def not_forward_modules():
+    """`not(forward)` (accepted by the attribute parser of Deref / DerefMut) is the un-forwarded derive: alone, and on the
+    field under an item-level `forward` it takes back"""
+    out = []
+    for named in (False, True):
+        for outer in (False, True):
+            k = f"not_forward|{'n' if named else 't'}|{'under_forward' if outer else 'alone'}"
+            top = "#[deref(forward)]\n#[deref_mut(forward)]\n" if outer else ""
+            fa = "#[deref(not(forward))] #[deref_mut(not(forward))] "
+            body = f"{{ {fa}pub a: Vec<u8> }}" if named else f"({fa}pub Vec<u8>);"
+            f = "a" if named else "0"
+            init = "S { a: vec![1, 2] }" if named else "S(vec![1, 2])"
+            mod = (f"use super::*;\n#[derive(derive_more::Deref, derive_more::DerefMut)]\n{top}pub struct S{' ' if named else ''}{body}\n"
+                   f"pub fn run() {{ let mut s = {init}; let mut rows: Vec<String> = vec![];\n"
+                   f"    {{ let r: &Vec<u8> = &*s; rows.push(format!(\"deref {{}}\", ad(r) == ad(&s.{f}))); }}\n"
+                   f"    {{ let m: &mut Vec<u8> = &mut *s; m.push(3); }} rows.push(format!(\"deref_mut {{:?}}\", s.{f}));\n"
+                   f"    report({json.dumps(k)}, &rows); }}")
+            out.append((k, mod, ["deref true", "deref_mut [1, 2, 3]"]))
+    return out
+
+
 def run(chk, tier, seed, replay):
     chk.assumptions += ["legacy derives: all fields are Vec<u8> (a wrongly selected neighbour still compiles); AsRef/AsMut: instrumented "
                         "F1..F3 whose own AsRef<Self> returns another object, each with a target G_i",
@@ -333,6 +354,9 @@ def run(chk, tier, seed, replay):
                 for k, m, e in dst_modules(c, named, alias):
                     mods.append((k, m))
                     exps[k] = (e, m)
+    for k, m, e in not_forward_modules():
+        mods.append((k, m))
+        exps[k] = (e, m)
     chk.notes["undocumented_mixed_styles_where_impl_differs"] = undocumented_dev
     if replay:
         want = json.load(open(replay))["key"]
